@@ -261,6 +261,25 @@ def p4(rep, f):
         rep.violation("P4", "line-table-told", where,
                       "#line: sposGrowGloLineTbl must be called with (%s) so that sposLine/sposFile decode the renumbered "
                       "position" % ", ".join(want))
+    # every renumbering reaches the line table: from the store to fileState.lineNumber every path to the exit passes the call
+    fc = common.extract("include.c", cfg=["inclHandleLine"])
+    cfg = common.CFG(fc.func("inclHandleLine"))
+
+    def is_line_store(nd):
+        return nd["k"] == "BinaryOperator" and nd["op"] == "=" and member_path(nd["c"][0]) == "fileState.lineNumber"
+    ev = cfg.events(is_line_store)
+    if not ev:
+        raise AnalysisBroken("inclHandleLine: the store to fileState.lineNumber is not in the CFG")
+    esc = None
+    for b, j, _ in ev:
+        esc = esc or cfg.path_avoiding(b, None, lambda nd: nd["k"] == "CallExpr" and nd.get("callee") == "sposGrowGloLineTbl", src_idx=j)
+    if esc is None:
+        rep.ok("P4", "line-table-told-on-every-path")
+    else:
+        rep.violation("P4", "line-table-told-on-every-path", where,
+                      "#line: after the line number has been changed a path leaves inclHandleLine without sposGrowGloLineTbl (for example "
+                      "a directive without a file name): later positions decode to the physical line, not the renumbered one",
+                      detail={"cfg_path": esc[:10]})
     n = 0
     for name, g in f.funcs.items():
         if "body" not in g or not g["file"].endswith("include.c"):
